@@ -31,9 +31,9 @@ static std::vector<cell_ptr> build(const Config& c) {
     prepare(cells, c.hist == 2 ? 1 : 0); return cells;
 }
 
-struct Stat { long pairs_within = 0, candidates = 0, narrow_calls = 0, nonzero_force_cases = 0; };
+struct Stat { long configs_with_pair_within = 0; long pairs_within = 0, candidates = 0, narrow_calls = 0, nonzero_force_cases = 0; };
 
-static std::string run_config(const Config& c, Stat* st = nullptr) {
+static std::string run_config(const Config& c, Stat* st = nullptr) { const long pairs_before = st ? st->pairs_within : 0;
     global_simulation_parameters sp = sc::make_sim_params("unused", LMIN[c.lmin]); sp.contact_cutoff_adhesion_ = CUT_ADH[c.cut]; sp.contact_cutoff_repulsion_ = CUT_REP[c.cut];
     const double cutoff = std::max(CUT_ADH[c.cut], CUT_REP[c.cut]); char buf[400]; std::string err;
     std::vector<cell_ptr> cells = build(c), clone = build(c);
@@ -47,7 +47,7 @@ static std::string run_config(const Config& c, Stat* st = nullptr) {
             long double d2 = dist2_point_triangle(n.pos_, clone[j]->node_lst_[f.n1_id_].pos_, clone[j]->node_lst_[f.n2_id_].pos_, clone[j]->node_lst_[f.n3_id_].pos_);
             if (d2 > (long double)cutoff * cutoff * (1 - 1e-9L)) continue; if (!pair_prefilter(n, f)) continue; if (st) st->pairs_within++;
             if (!candidates().count({&cells[i]->node_lst_[ni], &cells[j]->face_lst_[fi]})) { snprintf(buf, sizeof buf, "pair-within-cutoff-not-presented-to-the-contact-rules: node %u of cell %u and face %u of cell %u at distance %.6Lg (cut-off %.6g)", ni, i, fi, j, sqrtl(d2), cutoff); err = buf; break; } } } }
-    if (st) st->candidates += (long)candidates().size();
+    if (st) { st->candidates += (long)candidates().size(); if (st->pairs_within > pairs_before) st->configs_with_pair_within++; }
     // (b) all-pairs reference with the model's own narrow phase (order-dependent couplings between epithelial cells excluded)
     bool epi_pair = (CONTACT_MODEL_INDEX != 0) && TYPE_PAIRS[c.tp][0] == 0 && (TYPE_PAIRS[c.tp][1] == 0 || c.mesh_c >= 0);
     if (err.empty() && !epi_pair) {
@@ -75,11 +75,11 @@ static void explore(Result& R) {
         if (!e.empty()) R.violation(clause_of(e) + "|gt=" + std::to_string(gt), cfg_json(c) + ": " + e, "cfg=" + cfg_text(c) + "\n");
         if (configs % 3000 == 1) R.sample(cfg_json(c)); } }
 done:
-    R["evaluations"] = configs; R["states"] = configs; R["transitions"] = st.candidates + st.narrow_calls; R["distinct_nontrivial"] = configs; R["traces_validated_against_impl"] = configs;
+    R["evaluations"] = configs; R["states"] = configs; R["transitions"] = st.candidates + st.narrow_calls; R["distinct_nontrivial"] = st.configs_with_pair_within; R["traces_validated_against_impl"] = configs;
     R["pairs_within_cutoff_checked"] = st.pairs_within; R["candidates_reported_by_the_model"] = st.candidates; R["reference_narrow_phase_calls"] = st.narrow_calls; R["configurations_with_nonzero_contact_force"] = st.nonzero_force_cases;
     R.tables["build"]["contact_model_index"] = CONTACT_MODEL_INDEX; R["configurations_with_free_face_slots"] = g_free_slot_configs; if (configs && !g_free_slot_configs && R.args.nshards == 1) R.internal_error = "no configuration carried free face slots (vacuous)";
     if (configs && !st.pairs_within) R.internal_error = "no pair was ever within the cut-off (vacuous)";
-    R.strings["rule"] = "a configuration = (two or three cells: meshes, size of the second, relative offset on a half-size lattice from overlapping to far, global dyadic translation incl. +-1024.25 and straddling the origin, cut-off pair, min edge length = voxel alignment, cell types, history: fresh cells / cells that went through a real edge collapse and carry free slots / the same with persistent ids ahead of list positions); the real contact_model::run is executed; every (node, triangle) pair of different cells whose independently computed distance is within the larger cut-off and which passes the model's own pre-filters must appear among the H4 candidate reports; node forces must equal those of applying the model's own narrow-phase routine to all pairs of a cloned tissue";
+    R.strings["rule"] = "distinct_nontrivial = configurations (distinct tuples by construction) with at least one node-triangle pair of different cells within the cut-off; a configuration = (two or three cells: meshes, size of the second, relative offset on a half-size lattice from overlapping to far, global dyadic translation incl. +-1024.25 and straddling the origin, cut-off pair, min edge length = voxel alignment, cell types, history: fresh cells / cells that went through a real edge collapse and carry free slots / the same with persistent ids ahead of list positions); the real contact_model::run is executed; every (node, triangle) pair of different cells whose independently computed distance is within the larger cut-off and which passes the model's own pre-filters must appear among the H4 candidate reports; node forces must equal those of applying the model's own narrow-phase routine to all pairs of a cloned tissue";
     R.assumptions = {"pairs within 1e-9 relative of the cut-off are not judged", "force comparison (b) is skipped for epithelial-epithelial pairs in the coupling models (couplings depend on processing order); (a) still applies", "equal contact strengths on all face types (strength differences are C07's business)", "node normals/curvatures and face normals are fresh, as after the forces phase"};
 }
 static int replay(const Replay& rp, Result& R) { setup(); Config c = cfg_parse(rp.get("cfg")); std::string e1 = run_config(c), e2 = run_config(c); if (e1 != e2) { printf("replay diverged\n"); return 0; } printf("%s\n%s\n", cfg_json(c).c_str(), e1.c_str()); if (!e1.empty()) { R.violation(clause_of(e1), e1, ""); return 1; } return 0; }
